@@ -145,10 +145,10 @@ func (vc *VC) frameGoal(h, cur string) string {
 		}
 	}
 	if len(idxExcl) > 0 {
-		return fmt.Sprintf("(forall ((r Int) (j Int)) (=> (and (< (rootref r) $alloc@0) (not (= (rootref r) 0)) (not %s) (not %s)) (= (select (select %s r) j) (select (select %s r) j))))",
+		return fmt.Sprintf("(forall ((r Int) (j Int)) (=> (and (< (rootref r) $alloc@0) (not %s) (not %s)) (= (select (select %s r) j) (select (select %s r) j))))",
 			or(excl...), or(idxExcl...), cur, old)
 	}
-	return fmt.Sprintf("(forall ((r Int)) (=> (and (< (rootref r) $alloc@0) (not (= (rootref r) 0)) (not %s)) (= (select %s r) (select %s r))))", or(excl...), cur, old)
+	return fmt.Sprintf("(forall ((r Int)) (=> (and (< (rootref r) $alloc@0) (not %s)) (= (select %s r) (select %s r))))", or(excl...), cur, old)
 }
 
 type ghostDef struct {
@@ -189,6 +189,9 @@ func (vc *VC) define(hint, sort, term string) string {
 	if len(term) < 24 && !strings.Contains(term, " ") {
 		return term
 	}
+	if strings.HasPrefix(term, "(mk-slice ") && len(term) < 200 {
+		return term // keep slice constructors visible: offsets/lengths simplify syntactically
+	}
 	n := vc.freshName(hint, sort)
 	vc.defs = append(vc.defs, fmt.Sprintf("(assert (= %s %s))", n, term))
 	return n
@@ -217,7 +220,7 @@ func (vc *VC) stGet(st *State, name string) string {
 			if strings.HasPrefix(srt, "(Array Int ") && !strings.HasPrefix(name, "$") {
 				vc.needRootref()
 				vc.axiom(fmt.Sprintf("(forall ((r Int)) (! (=> (< (rootref r) %s) (= (select %s r) (select %s r))) :pattern ((select %s r))))", st.ep.bound, n, old, n))
-				if vc.d.refHeap[name] {
+				if vc.d.refHeap[name] && false {
 					// well-formedness: references stored before the call point to objects allocated before the call
 					vc.axiom(fmt.Sprintf("(forall ((r Int)) (! (< (rootref (select %s r)) %s) :pattern ((select %s r))))", old, st.ep.bound, old))
 				}
@@ -1201,7 +1204,16 @@ func (fr *Frame) enterLoop(li *loopInfo, pc string, st *State) (string, *State) 
 		}
 	}
 	for _, phi := range li.phis {
-		n := vc.fresh(fr.prefix+phi.Name(), vc.d.sortOf(phi.Type()))
+		var n string
+		if vc.d.sortOf(phi.Type()) == "Slice" && offZero(phi, map[ssa.Value]bool{}) {
+			// every value flowing into this slice variable has offset 0 (make/append/full reslice): keep that syntactically
+			b := vc.fresh(fr.prefix+phi.Name(), "Int")
+			vc.declare(b+".len", "Int")
+			vc.declare(b+".cap", "Int")
+			n = fmt.Sprintf("(mk-slice %s 0 %s %s)", b, b+".len", b+".cap")
+		} else {
+			n = vc.fresh(fr.prefix+phi.Name(), vc.d.sortOf(phi.Type()))
+		}
 		fr.vals[phi] = []string{n}
 		pc = and(pc, vc.typeAssume(n, phi.Type(), st))
 	}
@@ -1466,4 +1478,37 @@ func (vc *VC) addObl(o *Obligation) {
 	// snapshot of prelude length so later definitions are not needed (they are harmless, but keep files small)
 	o.Extra = fmt.Sprintf("%d %d", len(vc.consts), len(vc.defs))
 	vc.obls = append(vc.obls, o)
+}
+
+// offZero: static argument that a slice value always has offset 0 in its backing array.
+func offZero(v ssa.Value, seen map[ssa.Value]bool) bool {
+	if seen[v] {
+		return true
+	}
+	seen[v] = true
+	switch x := v.(type) {
+	case *ssa.MakeSlice:
+		return true
+	case *ssa.Call:
+		if b, ok := x.Call.Value.(*ssa.Builtin); ok && b.Name() == "append" {
+			return true
+		}
+	case *ssa.Phi:
+		for _, e := range x.Edges {
+			if !offZero(e, seen) {
+				return false
+			}
+		}
+		return true
+	case *ssa.Slice:
+		if x.Low == nil {
+			if _, isPtr := x.X.Type().Underlying().(*types.Pointer); isPtr {
+				return true
+			}
+			return offZero(x.X, seen)
+		}
+	case *ssa.Const:
+		return x.Value == nil
+	}
+	return false
 }
